@@ -1,4 +1,5 @@
 import ServiceModel.Proofs.Reachable
+import ServiceModel.Proofs.Stable
 /-!
 # C13 — Earnings are accounted per provider and per owner and paid out exactly
 -/
@@ -74,5 +75,60 @@ theorem withdraw_provider (s : State) (o pv : Addr) (hp : pv ≠ "") (h : (withd
         · intro o2 ho2
           show balOf (Map.set s.ownerEarned o _) o2 = _
           rw [balOf_set, if_neg (fun e : o = o2 => ho2 e.symm)]
+
+/-- Withdrawing for the owner (no provider named): pays exactly the owner's recorded total to its withdrawal address,
+    removes the owner's record and the records of exactly the providers it owns; every other provider's and owner's
+    earnings are untouched. -/
+theorem withdraw_all (hc : CfgOK cfg p) {s : State} (hr : Reachable cfg p h0 t0 s) (o : Addr)
+    (h : (withdraw s o "").2.1 = .ok) :
+    (withdraw s o "").2.2 = (if balOf s.ownerEarned o = 0 then [] else
+        [.transfer s.cfg.escrow ((Map.get s.withdraw o).getD o) (balOf s.ownerEarned o)]) ∧
+    balOf (withdraw s o "").1.ownerEarned o = 0 ∧
+    (∀ o2, o2 ≠ o → balOf (withdraw s o "").1.ownerEarned o2 = balOf s.ownerEarned o2) ∧
+    (∀ pv, Map.get s.owner pv = some o → balOf (withdraw s o "").1.earned pv = 0) ∧
+    (∀ pv, Map.get s.owner pv ≠ some o → Map.get (withdraw s o "").1.earned pv = Map.get s.earned pv) := by
+  have hB := (reachable_inv hc hr).b
+  unfold withdraw at h ⊢
+  have hn : ¬ (("" : Addr) ≠ "" ∧ Map.get s.owner "" ≠ some o) := fun hh => hh.1 rfl
+  rw [if_neg hn] at h ⊢
+  have hrec : withdrawRecords s o "" =
+      .ok ({ s with earned := (providersOf s o).foldl (fun m p => Map.del m p) s.earned,
+                    ownerEarned := Map.del s.ownerEarned o }, balOf s.ownerEarned o) := by
+    unfold withdrawRecords; simp
+  rw [hrec] at h ⊢
+  dsimp only at h ⊢
+  split at h; · simp [fail] at h
+  rename_i hdst
+  rw [if_neg hdst]
+  cases hs : bankSend s.bank s.cfg.escrow ((Map.get s.withdraw o).getD o) (balOf s.ownerEarned o) with
+  | none => rw [hs] at h; simp [fail] at h
+  | some bank' =>
+    dsimp only
+    have hget : ∀ pv, Map.get ((providersOf s o).foldl (fun m p => Map.del m p) s.earned) pv =
+        if pv ∈ providersOf s o then none else Map.get s.earned pv := fun pv => foldl_del_get _ _ pv
+    refine ⟨rfl, ?_, ?_, ?_, ?_⟩
+    · show balOf (Map.del s.ownerEarned o) o = 0
+      unfold balOf; rw [Map.get_del_same]; rfl
+    · intro o2 ho2
+      show balOf (Map.del s.ownerEarned o) o2 = _
+      unfold balOf; rw [Map.get_del_other _ _ _ (fun e => ho2 e.symm)]
+    · intro pv hpv
+      show balOf ((providersOf s o).foldl (fun m p => Map.del m p) s.earned) pv = 0
+      unfold balOf
+      rw [hget pv, if_pos ((providersOf_mem s hB o pv).mpr hpv)]; rfl
+    · intro pv hpv
+      show Map.get ((providersOf s o).foldl (fun m p => Map.del m p) s.earned) pv = _
+      rw [hget pv, if_neg (fun hm => hpv ((providersOf_mem s hB o pv).mp hm))]
+
+/-- Only the owner's own message changes its withdrawal address: every other operation (of anybody, and the end
+    of a block) leaves it as it is. -/
+theorem withdraw_address_changes_only_by_owner_message (s : State) (op : Op) (o : Addr)
+    (h : Map.get (step s op).1.withdraw o ≠ Map.get s.withdraw o) : ∃ a, op = .setwd o a := by
+  cases hop : op.setsWithdrawOf o with
+  | false => exact absurd (step_withdraw_addr s op o hop) h
+  | true =>
+    cases op with
+    | setwd o' a => simp [Op.setsWithdrawOf] at hop; subst hop; exact ⟨a, rfl⟩
+    | _ => simp [Op.setsWithdrawOf] at hop
 
 end SM.C13
